@@ -47,4 +47,29 @@ def restrict (j : Json) : Except String Json := do
           | .error (.missingRequired f) => pure (Json.mkObj [("err", Json.arr #[Json.str "required", Json.str f])])
           | .error (.notPermitted fs) => pure (Json.mkObj [("err", Json.arr #[Json.str "notPermitted", jList Json.str fs])])
 
+/-- op `sum_scope`: the scope checks of the student's evaluation in SumGrader / IntegralGrader (model `Rs.sumScopeCheck`) -/
+def sumScope (j : Json) : Except String Json := do
+  let sample ← getList getStr (← field j "sample_names")
+  let instr ← getList getStr (← field j "instructor_vars")
+  let funcs ← getList getStr (← field j "functions")
+  let sufs ← getList getStr (← field j "suffixes")
+  let a ← field j "asked"
+  let al ← getBool (← field a "lower"); let au ← getBool (← field a "upper"); let ab ← getBool (← field a "body")
+  let asked : Entry → Bool := fun e => match e with | .lower => al | .upper => au | .body => ab
+  let dummy ← getStr (← field j "dummy")
+  let scOf := fun (key : String) => do
+    let s ← getStr (← field j key)
+    match lex s with
+    | none => throw s!"parse {key}"
+    | some ts => match parseUsage ts with
+      | none => throw s!"parse {key}"
+      | some (_, sc) => pure sc
+  let scl ← scOf "lower"; let scu ← scOf "upper"; let scb ← scOf "body"
+  let nameOf : Entry → String := fun e => match e with | .lower => "lower" | .upper => "upper" | .body => "body"
+  match sumScopeCheck sample instr (fun f => funcs.contains f) (fun f => sufs.contains f) asked dummy scl scu scb with
+  | none => pure (Json.mkObj [("out", Json.str "scope-ok")])
+  | some (e, .undefinedVariable l) => pure (Json.mkObj [("err", Json.arr #[Json.str "UndefinedVariable", jList Json.str l, Json.str (nameOf e)])])
+  | some (e, .undefinedFunction l) => pure (Json.mkObj [("err", Json.arr #[Json.str "UndefinedFunction", jList Json.str l, Json.str (nameOf e)])])
+  | some (e, .undefinedSuffix l) => pure (Json.mkObj [("err", Json.arr #[Json.str "UndefinedSuffix", jList Json.str l, Json.str (nameOf e)])])
+
 end Drv
